@@ -227,6 +227,7 @@ class Gen:
         self.dropped_items = []
         self.hint_dropped_fns = []
         self.fuzzy_fns = []
+        self.dropped_hint_keys = {}
 
 
 def load_unit(unit):
@@ -242,7 +243,7 @@ PROOF_FN_RE = re.compile(
 )
 
 
-def build(unit, model, repo=None, mutate_false=None, tag="", drop_hints=()):
+def build(unit, model, repo=None, mutate_false=None, tag="", drop_hints=(), force_drop=None):
     """Assemble build/<unit>@<model><tag>.rs from the current working tree of `repo`."""
     repo = repo or REPO
     cfg = load_unit(unit)
@@ -298,6 +299,8 @@ def build(unit, model, repo=None, mutate_false=None, tag="", drop_hints=()):
                 rules["pinned_locals"] = _bd.get("locals", {})
         except Exception:
             pass
+    if force_drop:
+        rules["force_drop_inserts"] = force_drop
     sources = json.loads(json.dumps(cfg["sources"]))
     for sr in sources:
         for it in sr["items"]:
@@ -356,6 +359,8 @@ def build(unit, model, repo=None, mutate_false=None, tag="", drop_hints=()):
         g.dropped_items += seg.get("dropped_items", [])
         g.hint_dropped_fns += seg.get("hint_dropped_fns", [])
         g.fuzzy_fns += seg.get("fuzzy_fns", [])
+        for (fk, ik) in seg.get("dropped_hint_keys", []):
+            g.dropped_hint_keys.setdefault(fk, []).append(ik)
         # function ranges in generated coordinates
         for fn in seg["fns"]:
             gs = ge = None
